@@ -29,7 +29,7 @@ def run(ctx):
     ctx.correspond("DIST-HEADER-COMBO", suites.dist_header_combo_cases(ctx.rng.fork("combo"), ctx.tier), hb, db, flags=fl,
                    predicate=dc.pred_parts, nontrivial=lambda c, i: i != "0", coq_sample=4)
     # the other header-distance implementations (no length table, 16x16 Q table, no Q table, pseudo-SIMD body kernels)
-    for name in ["nosimd", "embedded", "lowmem", "decq"]:
+    for name in ["nosimd", "embedded", "lowmem", "decq", "static-sse2"]:
         hb2 = ctx.harness(name)
         if hb2 is None:
             continue
